@@ -127,20 +127,20 @@ CHECKS = {
  "C09": dict(
    text="AliasResolve.tla states the resolution rule: among the aliases whose pattern matches the call-site items and whose parameter types equal the argument types (Referenz only "
         "for assignables, one binding per type parameter) the longest wins, then the non-generic one, then the one with more Referenz parameters; arguments bind by placeholder name; "
-        "a negated alias yields the negation; without a type-matching alias the call is diagnosed. Populations of 1-3 functions over 7 patterns x 8 parameter typings (declaration "
-        "order shuffled, every third with an imported function) and call sites for every pattern shape in 5 argument forms are parsed by the real frontend; callee, binding and "
+        "a negated alias yields the negation; without a type-matching alias the call is diagnosed. Populations of 1-3 functions over 7 patterns x 10 parameter typings (declaration "
+        "order shuffled, every third with an imported function) and call sites for every pattern shape in 8 argument forms (literal, negative literal, group, name, parenthesised name, list element, field, character of a Text) are parsed by the real frontend; callee, binding and "
         "negation wrapper read from the AST are validated by TLC. Operator overloads (exact operand types, else built in) are checked on a fixed program.",
-   note="Bounded to the vocabulary {foo, bar, mit, nicht, <a>, <b>} and parameter types Zahl/Text/type parameter. Where the rule leaves a tie the specification accepts any tied alias.",
+   note="Bounded to the vocabulary {foo, bar, mit, nicht, <a>, <b>} and parameter types Zahl/Text/Buchstabe/type parameter. Where the rule leaves a tie the specification accepts any tied alias.",
    technique="TLA+ resolution rule + TLC trace validation of the real parser's AST over enumerated alias populations and call sites",
    ref="§4 C09"),
  "C10": dict(
    text="Modules.tla states the loader (a module is rejected iff a loaded module transitively imports itself), the run (an import statement initialises the target unless done: its "
         "imports in textual order first, then its own global initialisers; imported top-level statements never run) with the derived facts 'initialised exactly once' and 'after its "
         "imports', and visibility (exactly the public names, exactly the listed ones for selective imports, never names the target only imported). All import graphs on <=3 modules "
-        "in every textual import order, cyclic arrangements incl. the main module, a seeded sample of 4-module graphs, each with whole-module and selective imports, are materialised; "
+        "in every textual import order, cyclic arrangements incl. the main module, a seeded sample of 4-module graphs, each with whole-module and selective imports, and arrangements with a directory import (in the main module, in an imported module, both) are materialised; "
         "the frontend's verdict, the run-time order of initialiser side effects and main statements, and per-name visibility probes are validated by TLC.",
    note="Every module follows one declaration scheme (same-named private function, public variable with an effectful initialiser, private variable, public function, a top-level "
-        "print). Directory imports are exercised in C03's arrangements only.",
+        "print). A directory import means the whole-module import of each module of the directory in name order.",
    technique="TLA+ module-loading/initialisation/visibility specification + TLC trace validation of frontend verdicts and compiled-program output",
    ref="§4 C10"),
  "C15": dict(
